@@ -14,7 +14,65 @@ class FakeSamples:
                                                for i in range(self.n)}}}
 
 
+def real_sequence_schedule():
+    """the SLM time switch on real pulser sequences (XY mode, last atom masked), with the first global
+    pulse starting at t = 0 and after a leading delay: the masked matrix applies at every query time before
+    the SLM end time (including the time before the first pulse starts), the full matrix from then on"""
+    import pulser
+    sys.path.insert(0, os.path.dirname(os.path.abspath(__file__)))
+    from native_util import patch_pulser_observable
+    patch_pulser_observable()
+    from emu_base import PulserData
+    from emu_mps import MPSConfig
+    for lead in (0, 200):
+        reg = pulser.Register({f"q{i}": (7.0 * i, 0.0) for i in range(3)})
+        seq = pulser.Sequence(reg, pulser.MockDevice)
+        seq.declare_channel("ch0", "mw_global")
+        seq.config_slm_mask([reg.qubit_ids[-1]])
+        if lead:
+            seq.delay(lead, "ch0")
+        seq.add(pulser.Pulse.ConstantPulse(52, 3.0, 0.0, 0.0), "ch0")
+        seq.add(pulser.Pulse.ConstantPulse(100, 3.0, 0.0, 0.0), "ch0")
+        cfg = MPSConfig(dt=4, observables=[pulser.backend.BitStrings(evaluation_times=[1.0])], log_level=100,
+                        num_gpus_to_use=0)
+        pd = PulserData(sequence=seq, config=cfg, dt=cfg.dt)
+        mt = seq._slm_mask_time
+        end = mt[1] if len(mt) > 1 else 0.0
+        for sd in pd.get_sequences():
+            full = sd.interaction_matrix(float(seq.get_duration()) + 1.0)
+            masked = full.clone()
+            masked[2, :] = 0.0
+            masked[:, 2] = 0.0
+            if torch.equal(full, masked):
+                print("replay error: the masked atom has no coupling in this scenario")
+                return 3
+            for k in range(0, int(seq.get_duration()) * 2 + 1):
+                t = k / 2.0
+                got = sd.interaction_matrix(t)
+                want = masked if t < end else full
+                if not torch.equal(got, want):
+                    print(f"REPRODUCED: SLM mask on atom q2, pulser _slm_mask_time = {list(mt)} (first global pulse starts "
+                          f"at {lead} ns): interaction_matrix({t}) is the {'full' if torch.equal(got, full) else 'other'} "
+                          f"matrix, expected the {'masked' if t < end else 'full'} one (masked before the SLM end time "
+                          f"{end}, full afterwards)")
+                    return 1
+    return 0
+
+
 def main():
+    rc = real_sequence_schedule()          # real constructor, real pulser sequences
+    if rc:
+        return rc
+    try:
+        return synthetic()
+    except AttributeError as e:
+        # the synthetic PulserData below is built without its constructor; a tree that adds an attribute
+        # there cannot be driven this way (harness limit, not a finding)
+        print(f"NOT-REPRODUCED: real-sequence SLM schedule holds; synthetic-object part skipped ({e})")
+        return 0
+
+
+def synthetic():
     from emu_base.pulser_adapter import PulserData, HamiltonianType
     rnd = random.Random(int(os.environ.get("VERIF_SEED", "0")))
     for trial in range(400):
